@@ -5,7 +5,8 @@ open H4.Gen.Hdf
 
 theorem consts2 : MAX_REF = 65535 ∧ MAX_ORDER = 65535 ∧ MAX_FIELD_SIZE = 65535 ∧ VSFIELDMAX = 256 ∧ VSNAMELENMAX = 64
     ∧ FIELDNAMELENMAX = 128 ∧ H4_MAX_NC_NAME = 256 ∧ H4_MAX_VAR_DIMS = 32 ∧ H4.Gen.Limits.UINT16_MAX = 65535
-    ∧ H4.Gen.Limits.SIZEOF_VSNAME = 65 ∧ H4.Gen.Limits.SIZEOF_VSCLASS = 65 ∧ H4.Gen.Limits.H4_MAX_NC_OPEN = 32 := by decide
+    ∧ H4.Gen.Limits.SIZEOF_VSNAME = 65 ∧ H4.Gen.Limits.SIZEOF_VSCLASS = 65 ∧ H4.Gen.Limits.H4_MAX_NC_OPEN = 32
+    ∧ H4.Gen.Limits.H4_MAX_GR_NAME = 256 := by decide
 
 /-! ### reference numbers -/
 
